@@ -153,3 +153,11 @@ Qed.
 Lemma wgram_psd d (w : Rv) (B : Rm) : Forall (wfvR d) B -> Forall (fun a => 0 <= a) w ->
   PSDop d (wgramR d w B).
 Proof. intros HB Hw x Hx. rewrite quadform_wgram by auto. apply wsq_nonneg; auto. Qed.
+
+Lemma mvmul_madd_kd k d (A B : Rm) x : wfmR k d A -> wfmR k d B ->
+  mvmulR (maddR A B) x = vaddR (mvmulR A x) (mvmulR B x).
+Proof. intros [HA1 HA2] [HB1 HB2]. apply (mvmul_madd A B x d); split; auto; rcong. Qed.
+Lemma outer_wfm_kd k d (u w : Rv) : wfvR k u -> wfvR d w -> wfmR k d (outerR u w).
+Proof. intros Hu Hw. unfold wfv in *. destruct (outer_wfm u w) as [H1 H2]. split.
+  - rsimp. congruence.
+  - rsimp. rewrite Hw in H2. exact H2. Qed.
